@@ -380,6 +380,9 @@ func (fx *FnExec) finalizeAxioms() []string {
 	var out []string
 	// spec-level axioms
 	for _, c := range fx.P.Specs.Axioms {
+		if c.By != "" && c.By == fx.lemmaName {
+			continue // the induction consequence of the lemma being checked
+		}
 		env := &evalEnv{fx: fx, st: &State{fx: fx, heap: map[string]Term{}}, vars: map[string]cval{}, pkg: fx.P.TypesPkgs[c.Label]}
 		v, err := env.safeEval(c.Expr)
 		if err != nil {
@@ -600,6 +603,7 @@ func solveReport(rep *FnReport, opts solveOpts) {
 func verifyLemma(P *Prog, lm *Lemma) (rep *FnReport) {
 	rep = &FnReport{Key: "lemma:" + lm.Name, Short: "lemma." + lm.Name, HasContract: true}
 	fx := newFnExec(P, nil, nil)
+	fx.lemmaName = lm.Name
 	rep.fx = fx
 	defer func() {
 		rep.Obls = fx.obls
